@@ -1060,6 +1060,7 @@ fn execute_item_enforced(
         let check_result = catch_unwind(AssertUnwindSafe(|| {
             for op in &delta.ops_ref()[ops_before..] {
                 guard.check_op(op);
+                guard.check_op_against_store(op, store);
             }
         }));
 
